@@ -58,6 +58,8 @@ ChkHmtx(e) ==
       minlsb       |-> i.mode # "nobox" => JudgeMinLsb(i.lsb, i.box, t),
       minrsb       |-> i.mode # "nobox" => JudgeMinRsb(i.w, i.lsb, i.box, t),
       xmaxextent   |-> i.mode # "nobox" => JudgeMaxExt(i.w, i.lsb, i.box, t),
+      \* call history: the tables handed out are unchanged after the encoder was used again
+      alias_free   |-> e.intact,
       decode_ok    |-> e.ok,
       rt_widths    |-> o.w = i.w,
       rt_lsb       |-> o.lsb = i.lsb,
@@ -98,6 +100,7 @@ ChkHead(e) ==
       created    |-> JudgeTime(f.czero, f.c, t, 10),
       modified   |-> JudgeTime(f.mzero, f.m, t, 14),
       bbox       |-> <<SW(t, 18), SW(t, 19), SW(t, 20), SW(t, 21)>> = f.bbox,
+      alias_free |-> e.intact,
       decode_ok  |-> e.ok,
       rt_flags   |-> SameOn(o, f, {"ybase", "xbase", "nonlin", "bold", "italic", "shadow", "cond", "ext"}),
       rt_fields  |-> SameOn(o, f, {"upm", "bbox"}),
@@ -111,6 +114,7 @@ ChkMaxp(e) ==
   ELSE
   [shape     |-> Len(e.raw) = (IF e.in.ttf THEN 16 ELSE 3),
    fields    |-> Len(e.raw) = (IF e.in.ttf THEN 16 ELSE 3) /\ JudgeMaxp(e.in, e.raw),
+   alias_free |-> e.intact,
    decode_ok |-> e.ok,
    rt_count  |-> e.out.n = e.in.n /\ e.out.ttf = e.in.ttf,
    rt_maxima |-> e.in.ttf => e.out.t = e.in.t]
@@ -129,6 +133,7 @@ ChkOS2(e) ==
       avgwidth    |-> SW(t, 1) = i.avg,
       firstlast   |-> W(t, 32) = i.first /\ W(t, 33) = i.last,
       vmetrics    |-> SW(t, 34) = i.asc /\ SW(t, 35) = i.desc /\ SW(t, 36) = i.gap,
+      alias_free  |-> e.intact,
       decode_ok   |-> e.ok,
       rt_style    |-> o.oblique = i.oblique /\ (StyleConsistent(i) => SameOn(o, i, {"bold", "italic", "regular"})),
       rt_perm     |-> SameOn(o, i, {"nosub", "bmp", "perm"}),
@@ -143,6 +148,7 @@ ChkPost(e) ==
   [shape      |-> TRUE,
    angle      |-> W(t, 2) = e.in.ahi /\ W(t, 3) = e.in.alo,
    underline  |-> SW(t, 4) = e.in.upos /\ SW(t, 5) = e.in.uthick,
+   alias_free |-> e.intact,
    decode_ok  |-> e.ok,
    rt_angle   |-> e.exact /\ e.out.ahi = e.in.ahi /\ e.out.alo = e.in.alo,
    rt_fields  |-> SameOn(e.out, e.in, {"upos", "uthick"})]
@@ -169,6 +175,7 @@ ChkFont(e) ==
           /\ Len(e.hhea) = HheaWords /\ AllWords(e.hhea) /\ AllWords(e.hm)
           /\ HmtxShape(n, W(e.hhea, 17), e.hm)
           /\ Len(e.head) = HeadWords /\ Len(e.maxp) >= 3 /\ Len(e.os2) >= 39 /\ Len(e.post) >= 8
+          /\ AllWords(e.head) /\ AllWords(e.os2) /\ AllWords(e.post)
           /\ (e.fkind = "ttf" => Len(e.fileBox) = n /\ Len(e.fileEmpty) = n))
      THEN Malformed
      ELSE
@@ -217,8 +224,39 @@ ChkFont(e) ==
       \* the font value may become either neighbouring integer in hmtx - the unchanged library
       \* truncates - but every table of the file has to be derived from the same integers)
       os2_avgwidth  |-> AvgOK(SW(e.os2, 1), d.w, d.w),
-      os2_firstlast |-> Len(e.codes) > 0 => /\ W(e.os2, 32) = FirstCharDef(ToSet(e.codes))
-                                            /\ W(e.os2, 33) = LastCharDef(ToSet(e.codes)),
+      \* against the cmap actually written (walked by the harness) and against the codes the builder mapped
+      os2_firstlast |-> /\ Len(e.codes) > 0 => /\ W(e.os2, 32) = FirstCharDef(ToSet(e.codes))
+                                                /\ W(e.os2, 33) = LastCharDef(ToSet(e.codes))
+                        /\ (e.fcodes_ok /\ Len(e.fcodes) > 0) => /\ W(e.os2, 32) = FirstCharDef(ToSet(e.fcodes))
+                                                                  /\ W(e.os2, 33) = LastCharDef(ToSet(e.fcodes))
+                        /\ Len(e.codes) > 0 => e.has_cmap,
+      \* identical calls give identical files
+      write_deterministic |-> e.rewrite_same,
+      \* every fact that is stored twice: all tables of one file tell the same story ...
+      style_italic  |-> LET H == Bit(W(e.head, 22), 1)
+                            S == Bit(W(e.os2, 31), 0)
+                            P == W(e.post, 2) # 0 \/ W(e.post, 3) # 0
+                            C == SW(e.hhea, 10) # 0
+                        IN H = S /\ P = C,                 \* macStyle bit 1 = fsSelection bit 0; post angle <=> slanted caret
+      style_bold    |-> Bit(W(e.head, 22), 0) = Bit(W(e.os2, 31), 5),   \* macStyle bit 0 = fsSelection bit 5
+      style_regular |-> SelWellFormed(W(e.os2, 31)),
+      post_fixedpitch |-> FixedPitchOK(W(e.post, 6) # 0 \/ W(e.post, 7) # 0, [i \in 1..n |-> 20 * d.w[i]]),
+      \* ... and it is the story Read reports
+      style_read    |-> e.st.read_ok /\
+                        LET H == Bit(W(e.head, 22), 1)
+                            S == Bit(W(e.os2, 31), 0)
+                            O == Bit(W(e.os2, 31), 9)
+                            P == W(e.post, 2) # 0 \/ W(e.post, 3) # 0
+                            B == Bit(W(e.os2, 31), 5)
+                            R == Bit(W(e.os2, 31), 6)
+                        IN /\ (H \/ S \/ O \/ P) => e.st.r_italic
+                           /\ (~H /\ ~S /\ ~O /\ ~P /\ ~e.st.name_italic) => ~e.st.r_italic
+                           /\ B => e.st.r_bold
+                           /\ (~B /\ ~e.st.name_bold) => ~e.st.r_bold
+                           /\ e.st.r_oblique = O
+                           /\ e.st.r_regular => (R /\ ~e.st.r_italic /\ ~e.st.r_bold)
+                           /\ e.st.r_weight = W(e.os2, 2)
+                           /\ e.st.r_upm = W(e.head, 9),
       \* scalar header data of the font value inside the file
       file_vmetrics |-> /\ SW(e.hhea, 2) = e.f.asc /\ SW(e.hhea, 3) = e.f.desc /\ SW(e.hhea, 4) = e.f.gap
                         /\ SW(e.os2, 34) = e.f.asc /\ SW(e.os2, 35) = e.f.desc /\ SW(e.os2, 36) = e.f.gap,
@@ -236,7 +274,8 @@ ChkFont(e) ==
                         /\ p.hm = e.hm
                         /\ \A k \in 18..21 : W(p.head, k) = W(e.head, k)
                         /\ \A k \in {1, 32, 33} : W(p.os2, k) = W(e.os2, k)
-                        /\ p.maxp = e.maxp,
+                        /\ p.maxp = e.maxp
+                        /\ Len(p.post) >= 8 /\ (W(p.post, 6) # 0 \/ W(p.post, 7) # 0) = (W(e.post, 6) # 0 \/ W(e.post, 7) # 0),
       glyf_boxes    |-> e.fkind = "ttf" =>
                           \A i \in 1..n : IF e.fileEmpty[i] THEN EmptyBox(box[i]) ELSE e.fileBox[i] = box[i],
       \* second reader of the same file
